@@ -150,6 +150,7 @@ def _p5_p6(ctx):
     c14._a5(ctx, "C02-P5")
     core = ctx.func("accelforge/mapper/FFM/_pareto_df/fast_pareto.py", "_sfs_bnl_core", "C02-P6")
     c11._n9(ctx, core, "C02-P6")
+    c11._n4(ctx, core, "C02-P6")  # window bookkeeping: a row is filed under the block it is stored in
 
 
 def check(ctx):
